@@ -402,14 +402,14 @@ class CachedFcn(UserFcn):
             and len(args) == len(self.lastArgs)
             and (
                 all(x is y for x, y in zip(args, self.lastArgs))
-                or (self.np is not None and all(self.np.array_equal(x, y) for x, y in zip(args, self.lastArgs)))
-                or (self.np is None and all(x == y for x, y in zip(args, self.lastArgs)))
+                or (np is not None and all(np.array_equal(x, y) for x, y in zip(args, self.lastArgs)))
+                or (np is None and all(x == y for x, y in zip(args, self.lastArgs)))
             )
             and set(kwds.keys()) == set(self.lastKwds.keys())
             and (
                 all(kwds[k] is self.lastKwds[k] for k in kwds)
-                or (self.np is not None and all(self.np.array_equal(kwds[k], self.lastKwds[k]) for k in kwds))
-                or (self.np is None and all(kwds[k] == self.lastKwds[k] for k in kwds))
+                or (np is not None and all(np.array_equal(kwds[k], self.lastKwds[k]) for k in kwds))
+                or (np is None and all(kwds[k] == self.lastKwds[k] for k in kwds))
             )
         ):
             return self.lastReturn
